@@ -57,6 +57,16 @@ class Env:
         self._refused = False
         self.capturing = False  # atexit registrations are collected instead of registered
         self.exit_funcs = []
+        self.mainlock = None  # file name of the lock of the library under test (other lock files are named in the info)
+        self.lock_tag = ""  # "@inner": acquisitions of a session nested inside another one / of a constructor in between
+
+    def lock_info(self, lockfile, mode):
+        name = getattr(lockfile, "name", "") or ""
+        name = os.path.basename(os.fsdecode(name) if isinstance(name, (bytes, str)) else "")
+        t = (mode or "") + self.lock_tag
+        if self.mainlock and name and name != self.mainlock:
+            t += ":" + name
+        return t or None
 
     # -- scheduling point -------------------------------------------------------------------
     def point(self, label, info=None):
@@ -103,7 +113,7 @@ class Env:
             if env.nonblocking and env._refused:
                 return False  # a retry inside the same timed-out attempt: no new scheduling point
             while True:
-                env.point("lock?", "excl" if exclusive else "shared")
+                env.point("lock?", env.lock_info(lockfile, "excl" if exclusive else "shared"))
                 got = o_try(lockfile, exclusive)
                 if got:
                     env.prev = "acquired"
@@ -117,7 +127,7 @@ class Env:
 
         def unlock(lockfile):
             if env.active:
-                env.point("unlock")
+                env.point("unlock", env.lock_info(lockfile, None))
             r = o_unlock(lockfile)
             env.prev = "unlocked"
             return r
@@ -433,6 +443,9 @@ class Controller:
                 label, info = pending.pop(i)
                 x.trace.append((i, label, info))
                 last_action[i] = (label, info)
+                if hasattr(mon, "before"):
+                    # e.g. a probe from this (another) process that a lock believed to be held really is held
+                    mon.before(i, (label, info), x)
                 W[i].send(("go",))
                 unl = absorb(i, W[i].recv())
                 running = i
